@@ -14,8 +14,10 @@ RULE = ('family = one generated pipeline with a prefetch / parallel-map stage an
         'terminal exception equal the sequential reference (independent per-position '
         'catch); thread backends must deliver the very exception object. '
         'Non-trivial = a fault fired or a real context switch happened; distinct = '
-        'distinct (pipeline, fault plan, schedule signature).')
-PROBES = ['error_after_deliveries', 'error_at_first_position', 'error_at_last_position',
+        'distinct (pipeline, fault plan, schedule signature). Every 50th family is '
+        'systematic: a tiny workload with one failing position under the non-preemptive '
+        'baseline schedule and ALL schedules with exactly one forced context switch.')
+PROBES = ['all_single_preemption_schedules_of_a_tiny_workload', 'error_after_deliveries', 'error_at_first_position', 'error_at_last_position',
           'caught_and_omitted', 'foreign_exception_with_catch_enabled']
 BUDGET = {
     'quick': {'families': 4800, 'wall_cap': 420, 'shrink_s': 15},
@@ -25,7 +27,22 @@ BUDGET = {
 KINDS = ['value', 'filter', 'filter_sub', 'key', 'base']
 
 
+def gen_systematic(rng):
+    """tiny workload, one failing position, ALL one-preemption schedules"""
+    desc = parprops.tiny_desc(rng)
+    n = desc['source']['n']
+    pi = pargen.par_index(desc)
+    sites = [s['id'] for s in desc['stages'][:pi + 1] if 'id' in s]
+    base = {'desc': desc, 'epochs': 1, 'cost_seed': None, 'think_seed': 0, 'think_max': 0,
+            'trace': ['parallel_utils'], 'systematic': 1,
+            'faults': [{'stage': rng.choice(sites), 'pos': rng.randrange(n),
+                        'exc': rng.choice(KINDS)}]}
+    return parprops.one_preemption_cases(base, parrun.run_par_case)
+
+
 def gen(rng, tier, index):
+    if index % 50 == 49:
+        return gen_systematic(rng)
     # backend=False (undocumented serial debugging mode) has no background
     # work and is exercised by C04 only.
     backends = ('t',) if rng.random() < 0.6 else tuple(pargen.BACKENDS_POOL)
@@ -64,6 +81,9 @@ def gen(rng, tier, index):
 def run(case):
     res = parrun.run_par_case(case)
     out = parprops.base_outcome(case, res)
+    if case.get('systematic'):
+        out['fired']['systematic_one_preemption'] = 1
+        out['probes']['all_single_preemption_schedules_of_a_tiny_workload'] = 1
     if not parprops.check_failure(case, res, out):
         parprops.check_transparent(case, res, out, identity=True)
         parprops.check_clean_stop(case, res, out)
